@@ -93,18 +93,20 @@ func (r *run) challenges() {
 				},
 				detail: func(m mutant, mu *Mut) { r.chalCase(k, s.w, now, m.tok, mu) }})
 		}
-		// through authgate.Challenger (its own clock and window default)
-		chg := authgate.NewChallenger(&authgate.ChallengerConfig{Signer: sg, Now: at(s.t0 + 1), Window: time.Duration(s.w)})
-		_, e := chg.Check(blob)
+		// through authgate.Challenger (its own clock and window default: 30 s when none is configured)
 		w := s.w
 		if w <= 0 {
 			w = 30 * sec
 		}
-		gc := &Case{Stream: "challenge", Op: "chalcheck", Fam: "challenge", Key: k, Window: z(w), Now: z(s.t0 + 1),
-			Tok: hx16(blob), Macs: macsForBlob(k, blob), Mut: &Mut{Tok: tokid, Class: "genuine", Same: true}, T0: z(s.t0)}
-		gc.Obs.Err = chalErr(e)
-		gc.Obs.Ok = e == nil
-		r.emit(gc)
+		for _, d := range []int64{1, w, w + 1, -1} {
+			chg := authgate.NewChallenger(&authgate.ChallengerConfig{Signer: sg, Now: at(s.t0 + d), Window: time.Duration(s.w)})
+			_, e := chg.Check(blob)
+			gc := &Case{Stream: "challenge", Op: "chalcheck", Fam: "challenge", Key: k, Window: z(w), Now: z(s.t0 + d),
+				Tok: hx16(blob), Macs: macsForBlob(k, blob), Mut: &Mut{Tok: tokid, Class: "genuine", Same: true}, T0: z(s.t0)}
+			gc.Obs.Err = chalErr(e)
+			gc.Obs.Ok = e == nil
+			r.emit(gc)
+		}
 	}
 	// correctly signed data that is not a challenge: no timestamp, odd JSON
 	for _, d := range []string{`{}`, `{"N":"x"}`, `{"N":5,"T":{"Sec":1700000000}}`, `{"T":null}`, `x`, ``,
